@@ -515,8 +515,10 @@ class CodeGenerator(NodeVisitor):
         # if any of the given keyword arguments is a python keyword
         # we have to make sure that no invalid call is created.
         # "__debug__" is not a keyword but python refuses to assign to it.
+        # python compares identifiers in their NFKC form, a name that is
+        # not ascii could collide with a keyword or another name there.
         kwarg_workaround = any(
-            is_python_keyword(t.cast(str, k)) or k == "__debug__"
+            is_python_keyword(t.cast(str, k)) or k == "__debug__" or not k.isascii()
             for k in chain((x.key for x in node.kwargs), extra_kwargs or ())
         )
 
